@@ -269,6 +269,10 @@ func (c16) Gen(seed uint64, run int, tier string) *Plan {
 				emit(Action{Kind: "sexc2taken", A: s, B: kk, C: r.Intn(2)})
 			} else if k["exc2"] == 1 {
 				emit(Action{Kind: "sexc2", A: s, B: kk})
+				if inPar == 0 && r.Intn(4) == 0 {
+					// an operator removes the listener the service has just started, by name
+					emit(Action{Kind: "lremx", A: s, B: kk, C: r.Intn(2)})
+				}
 			} else {
 				emit(Action{Kind: "sagent", A: s, B: kk})
 				agents[s]++
@@ -369,6 +373,7 @@ type c16Conn struct {
 	agents map[int]world.ServiceAgentSpec // k -> spec it asked to register
 	ltypes map[int]string                 // k -> listener type name
 	exc2   map[int]string                 // k -> request id
+	exc2Removed map[int]bool              // k -> an operator removed that listener by name
 	taken  map[string]string              // route -> request id of an External-C2 request under a taken name
 }
 
@@ -745,14 +750,31 @@ func (st *c16State) inject(a Action, pre []c16Entry) {
 			k := c16abs(a.B) % 2
 			name := c16Ex2Name(c, k)
 			c.exc2[k] = c.sc.AddExC2(name, c16Ex2Endpoint(name))
+			delete(c.exc2Removed, k) // (asked for again after an operator removed it)
 			res.Probe("svc-registrations")
+		}
+	case "lremx":
+		if c := st.liveConn(st.slotOf(a)); c != nil && len(st.curGroup) <= 1 {
+			k := c16abs(a.B) % 2
+			if rid, ok := c.exc2[k]; ok && !c.exc2Removed[k] {
+				c.sc.Pump()
+				if acc, _, ans := c.sc.ExC2Reply(rid); acc && ans {
+					o := st.op(a.C)
+					o.SendJSON(world.MakePkg(world.EvListener, world.ListenerRemove, o.Name, map[string]any{"Name": c16Ex2Name(c, k)}))
+					if c.exc2Removed == nil {
+						c.exc2Removed = map[int]bool{}
+					}
+					c.exc2Removed[k] = true
+					res.Probe("operator-removes-service-exc2-listener")
+				}
+			}
 		}
 	case "sexc2taken":
 		if c := st.liveConn(st.slotOf(a)); c != nil {
 			// this connection's own External-C2 listener, or the profile's HTTP listener (as long as
 			// no operator touches listeners at the same time: the name must stay taken)
 			name := ""
-			if _, ok := c.exc2[c16abs(a.B)%2]; ok && a.C == 1 {
+			if _, ok := c.exc2[c16abs(a.B)%2]; ok && a.C == 1 && !c.exc2Removed[c16abs(a.B)%2] {
 				if acc, _, ans := c.sc.ExC2Reply(c.exc2[c16abs(a.B)%2]); acc && ans {
 					name = c16Ex2Name(c, c16abs(a.B)%2)
 				}
@@ -1532,6 +1554,13 @@ func (st *c16State) serviceRegistries(reg []c16Entry) {
 				name := c16Ex2Name(c, k)
 				ep := c16Ex2Endpoint(name)
 				accepted, _, answered := c.sc.ExC2Reply(rid)
+				if c.exc2Removed[k] {
+					// removed by an operator: listener and route are gone, whatever becomes of the connection
+					if routes[ep] > 0 || lnames[name] > 0 {
+						res.Violate("C16", "service-leftover", "exc2-after-operator-removed-the-listener", fmt.Sprintf("an operator removed External-C2 listener %q (started by service connection %s): route=%d listener=%d are still registered", name, c.sc.Label, routes[ep], lnames[name]), w.Sim)
+					}
+					continue
+				}
 				if c.closed && routes[ep] > 0 {
 					res.Violate("C16", "service-leftover", "exc2-endpoint", fmt.Sprintf("External-C2 route %q of vanished service connection %s is still registered", ep, c.sc.Label), w.Sim)
 				}
@@ -1595,7 +1624,7 @@ func (st *c16State) survivorsWork(reg []c16Entry) {
 		}
 		for _, k := range []int{0, 1} {
 			rid, ok := c.exc2[k]
-			if !ok {
+			if !ok || c.exc2Removed[k] {
 				continue
 			}
 			if acc, _, ans := c.sc.ExC2Reply(rid); !acc || !ans {
